@@ -20,14 +20,22 @@ def check(ctx):
     from ..common import BUILD, VERIF, MachineryError, available_interpreters, child_env, run
     from ..tlc import run_tlc
     ctx.explanation += ("; Trickery.tla models set_trickery_enabled and the caching self-test at the grain of the code (lock-free "
-                        "check, lock acquisition, re-check + self-test under the lock): every sequence of 5 (thorough 7) steps of "
+                        "check, lock acquisition, re-check + self-test under the lock): every sequence of 5 (thorough 6; invariants on 7) steps of "
                         "two threads is replayed on real threads, which are held at the lock's entry and inside it by a gate "
                         "wrapped around the lock, and the implementation each extraction used (identified from start_line / "
                         "varname being filled) is compared with the spec's; the same model without the re-check must be rejected "
                         "by TLC (lost update of an explicit setting)")
     from ..tlc import derive_cfg
-    tcfg = "Trickery.cfg" if ctx.tier == "quick" else derive_cfg("Trickery.cfg", "Trickery7.cfg", {"MaxSteps": "7"})
-    r = ctx.tlc(run_tlc("Trickery", tcfg, workers=1, timeout=1800, name="trick"), "mode switch, all sequences of 5 (thorough: 7) steps")
+    if ctx.tier != "quick":
+        # thorough: the invariants on every history of 7 steps (1.4 million states; not exported) ...
+        r7 = ctx.tlc(run_tlc("Trickery", derive_cfg("Trickery.cfg", "Trickery7.cfg", {"MaxSteps": "7"}, drop=["CONSTRAINT"]),
+                             timeout=1800, name="trick7"), "mode switch, invariants on all histories of 7 steps")
+        if not r7.ok:
+            ctx.violation(f"model (Trickery, 7 steps): {r7.violated}", r7.trace_text[-1500:])
+            return
+    # ... and every history of 5 (thorough: 6) steps exported for the replay
+    tcfg = "Trickery.cfg" if ctx.tier == "quick" else derive_cfg("Trickery.cfg", "Trickery6.cfg", {"MaxSteps": "6"})
+    r = ctx.tlc(run_tlc("Trickery", tcfg, workers=1, timeout=1800, name="trick"), "mode switch, all sequences of 5 (thorough: 6) steps")
     if not r.ok:
         ctx.violation(f"model (Trickery): {r.violated}", r.trace_text[-1500:])
         return
